@@ -35,7 +35,8 @@ func writeDB(r *lib.Rng, dir string) (database, error) {
 	for i, n := 0, 1+r.Intn(6); i < n; i++ {
 		fmt.Fprintf(&b, "%s,%s,%s\n", intCell(r, true), intCell(r, false), words[r.Intn(len(words))])
 	}
-	b.WriteString(",3,m\n") // at least one NULL key
+	b.WriteString(",3,m\n")  // at least one NULL key
+	b.WriteString("2,0,x\n") // and a zero, for guarded divisions
 	if err := os.WriteFile(filepath.Join(dir, "t.csv"), []byte(b.String()), 0o644); err != nil {
 		return database{}, err
 	}
@@ -46,6 +47,7 @@ func writeDB(r *lib.Rng, dir string) (database, error) {
 		fmt.Fprintf(&b, "%s,%s,%s\n", words[r.Intn(len(words))], intCell(r, true), intCell(r, false))
 	}
 	b.WriteString("zz,,2\n")
+	b.WriteString("x,0,0\n")
 	if err := os.WriteFile(filepath.Join(dir, "u.csv"), []byte(b.String()), 0o644); err != nil {
 		return database{}, err
 	}
@@ -67,7 +69,92 @@ func writeDB(r *lib.Rng, dir string) (database, error) {
 	if err := os.WriteFile(filepath.Join(dir, "l.json"), []byte(b.String()), 0o644); err != nil {
 		return database{}, err
 	}
+	b.Reset()
+	// ev.csv: event-time data.  The position of the time column varies per database; columns in front of it
+	// that a query does not use are pruned by the optimizer, which must then shift every Schema.TimeField above.
+	layouts := [][]string{{"id", "ts", "val"}, {"ts", "id", "val"}, {"id", "pad", "ts", "val"}, {"id", "val", "ts"}, {"pad", "id", "val", "ts"}}
+	layout := layouts[r.Intn(len(layouts))]
+	b.WriteString(strings.Join(layout, ",") + "\n")
+	sec := 0
+	for i, n := 0, 4+r.Intn(6); i < n; i++ {
+		sec += 1 + r.Intn(70)
+		cells := make([]string, len(layout))
+		for k, c := range layout {
+			switch c {
+			case "id":
+				cells[k] = fmt.Sprint(i + 1)
+			case "pad":
+				cells[k] = words[r.Intn(len(words))]
+			case "val":
+				cells[k] = fmt.Sprint(10 * (1 + r.Intn(5)))
+			case "ts":
+				cells[k] = fmt.Sprintf("2021-01-01T00:%02d:%02dZ", sec/60, sec%60)
+			}
+		}
+		b.WriteString(strings.Join(cells, ",") + "\n")
+	}
+	if err := os.WriteFile(filepath.Join(dir, "ev.csv"), []byte(b.String()), 0o644); err != nil {
+		return database{}, err
+	}
 	return database{dir: dir, hasNulls: true}, nil
+}
+
+// eventTimeQuery: max_diff_watermark -> tumble pipelines; tumble takes the implicit (watermarked) time field of its
+// source unless time_field is given; the outer query uses only some of the columns.
+func eventTimeQuery(r *lib.Rng, feat map[string]bool) string {
+	feat["event_time"] = true
+	inner := "*"
+	if r.Chance(1, 4) {
+		inner = []string{"c.ts, c.val, c.id", "c.val, c.ts", "c.id, c.val, c.ts"}[r.Intn(3)]
+		feat["event_time_projection"] = true
+	}
+	innerWhere := ""
+	if r.Chance(1, 3) {
+		innerWhere = fmt.Sprintf(" WHERE c.val > %d", 10*r.Intn(4))
+	}
+	tf := ""
+	if r.Chance(1, 3) {
+		tf = ", time_field=>DESCRIPTOR(ts)"
+		feat["event_time_explicit_field"] = true
+	} else {
+		feat["event_time_implicit_field"] = true
+	}
+	with := fmt.Sprintf("WITH ww AS (SELECT %s FROM max_diff_watermark(source=>TABLE(ev.csv), max_diff=>INTERVAL %d SECOND, time_field=>DESCRIPTOR(ts)) c%s), "+
+		"wt AS (SELECT * FROM tumble(source=>TABLE(ww), window_length=>INTERVAL %d SECOND%s) c) ",
+		inner, 1+r.Intn(5), innerWhere, []int{30, 60, 120}[r.Intn(3)], tf)
+	outerWhere := ""
+	if r.Chance(1, 3) {
+		outerWhere = fmt.Sprintf(" WHERE val > %d", 10*r.Intn(4))
+	}
+	switch r.Intn(4) {
+	case 0:
+		return with + "SELECT window_end, COUNT(*) AS c FROM wt" + outerWhere + " GROUP BY window_end"
+	case 1:
+		return with + "SELECT window_end, COUNT(*) AS c, SUM(val) AS s FROM wt" + outerWhere + " GROUP BY window_end"
+	case 2:
+		return with + "SELECT window_start, val FROM wt" + outerWhere
+	default:
+		return with + "SELECT window_end, val, ts FROM wt" + outerWhere
+	}
+}
+
+// guardedQuery: an inner filter (a subquery's WHERE or a join's ON) protects an outer predicate that fails at run
+// time on the rows the inner filter removes (integer division by zero).  Any rewrite that evaluates the outer
+// predicate first makes only the optimized query fail.
+func guardedQuery(r *lib.Rng, feat map[string]bool) string {
+	feat["guarded_partial_predicate"] = true
+	k := 1 + r.Intn(4)
+	n := []int{6, 10, 12}[r.Intn(3)]
+	switch r.Intn(4) {
+	case 0:
+		return fmt.Sprintf("SELECT x.b, x.s FROM (SELECT t.b AS b, t.s AS s FROM t.csv t WHERE t.b <> 0) x WHERE %d / x.b >= %d", n, k)
+	case 1:
+		return fmt.Sprintf("SELECT t.b, u.y FROM t.csv t JOIN u.csv u ON t.b <> 0 WHERE %d / t.b >= %d", n, k)
+	case 2:
+		return fmt.Sprintf("SELECT t.b, u.y FROM t.csv t JOIN u.csv u ON t.a = u.x AND t.b <> 0 WHERE %d / t.b >= %d AND u.y > 0", n, k)
+	default:
+		return fmt.Sprintf("SELECT t.s, u.w FROM t.csv t JOIN u.csv u ON u.y <> 0 AND t.b > 0 WHERE %d / u.y >= %d AND %d / t.b >= 1", n, k, n)
+	}
 }
 
 // ---- generated queries ----
@@ -383,6 +470,12 @@ func nullable(cs []col) []col {
 // genQuery returns the SQL text and the features it exercises.
 func genQuery(r *lib.Rng) (string, map[string]bool) {
 	g := &qgen{r: r, feat: map[string]bool{}}
+	switch r.Intn(12) {
+	case 0, 1:
+		return eventTimeQuery(r, g.feat), g.feat
+	case 2:
+		return guardedQuery(r, g.feat), g.feat
+	}
 	src := g.relation(1 + r.Intn(2))
 	var items []string
 	for _, c := range src.cols {
